@@ -228,3 +228,10 @@ L('wf_homopolymer', {'s': 'str', 'alpha': 'list[char]', 'c': 'char', 'i': 'int',
   uses=['when(alpha[upto - 1] == c, nsym_all(s, alpha[upto - 1], i, i + w))', 'when(Not(alpha[upto - 1] == c), nsym_none(s, alpha[upto - 1], i, i + w))'])
 T('C11_wf_homopolymer', {'s': 'str', 'alpha': 'list[char]', 'c': 'char', 'i': 'int', 'w': 'int'},
   'wf_spec(s, alpha, i, w) == 0', requires=[_HOMO, 'w >= 1'], uses=['wf_homopolymer(s, alpha, c, i, w, length(alpha))'])
+
+# ----------------------------------------------------------------------------- C08: why the float comparisons agree with the rational thresholds
+# A ratio m/N of integers is either exactly on a threshold (1/4, 7/20) or at least 1/(20 N) away from it - far more than the
+# rounding error of one correctly rounded division (relative 2^-53), so for N < 10^13 the float comparison decides like the exact one.
+T('C08_threshold_separation', {'m': 'int', 'N': 'int'},
+  'And(Or(4 * m == N, absv(toreal(m) / N - Fraction(1, 4)) * (4 * N) >= 1), Or(20 * m == 7 * N, absv(toreal(m) / N - Fraction(7, 20)) * (20 * N) >= 1))',
+  requires=['N >= 1', 'm >= 0'])
